@@ -321,6 +321,22 @@ class NestedSDict:
         return f"NestedSDict<{self.label}>"
 
 
+class RecDict:
+    """mutable dict  {name: record}  built inside a loop with symbolic trip count (keys are names, records are dicts
+    with a fixed set of concrete field names).  dom: Int->Bool, cols[field] = (Int->sort, kind), size: z3 Int (number of
+    keys - a ghost the store operation maintains: +1 exactly when the key was absent)."""
+
+    def __init__(self, dom, cols, size, fresh=True, label="recdict"):
+        self.dom = dom
+        self.cols = dict(cols)
+        self.size = size
+        self.fresh = fresh
+        self.label = label
+
+    def __repr__(self):
+        return f"RecDict<{self.label}>"
+
+
 class NestedInner:
     """the inner dict  parent[k1]  (a view: stores go to the parent)"""
 
